@@ -360,6 +360,11 @@ func (i *PostingsIterator) loadChunk(chunk int) error {
 	if i.includeLocs {
 		err := i.locReader.loadChunk(chunk)
 		if err != nil {
+			if i.includeFreqNorm {
+				// the chunk is not loaded: its freq/norm half must not
+				// look loaded to the next call
+				i.freqNormReader.curChunkBytes = nil
+			}
 			return err
 		}
 	}
